@@ -1,18 +1,31 @@
 (* Shared plumbing for the generated case files: each case carries the implementation's
-   observation; [corr] says whether the model computes the same observation, [mon] whether the
-   property's monitor (an executable form of the specification) accepts the implementation's
-   observation.  Only failures are printed. *)
+   observation; [corr] says whether the model computes the same observation (None = yes, Some d =
+   first difference), [mon] whether the property's monitor (an executable form of the
+   specification) accepts the implementation's observation (None = yes, Some tag = violated
+   clause).  Only failures are printed. *)
 From FositeModel Require Export Base.Str.
 
-Record verdict := V { corr : bool; mon : option string }.
+Record verdict := V { corr : option string; mon : option string }.
 
 Fixpoint failures_from {A} (chk : A -> verdict) (i : nat) (cs : list A) : list (nat * string) :=
   match cs with
   | [] => []
   | c :: r =>
       let v := chk c in
-      ((if corr v then [] else [(i, "corr")]) ++
+      ((match corr v with None => [] | Some d => [(i, ("corr:" ++ d)%string)] end) ++
        (match mon v with None => [] | Some t => [(i, ("mon:" ++ t)%string)] end) ++
        failures_from chk (S i) r)%list
   end.
 Definition failures {A} (chk : A -> verdict) (cs : list A) := failures_from chk 0 cs.
+
+Definition corr_b (b : bool) : option string := if b then None else Some "".
+
+(* decimal rendering of small numbers for the failure tags *)
+Definition digit (n : nat) : string :=
+  match n with 0 => "0" | 1 => "1" | 2 => "2" | 3 => "3" | 4 => "4" | 5 => "5" | 6 => "6" | 7 => "7" | 8 => "8" | _ => "9" end.
+Fixpoint nat_str_fuel (fuel n : nat) : string :=
+  match fuel with
+  | 0 => ""
+  | S f => if Nat.ltb n 10 then digit n else (nat_str_fuel f (Nat.div n 10) ++ digit (Nat.modulo n 10))%string
+  end.
+Definition nat_str (n : nat) : string := nat_str_fuel 12 n.
